@@ -582,7 +582,7 @@ def U_block1(small_body=2):
     small = leaf_menu(False)
     bodies = [b for b in seqs(small, small_body)]
     handlers = [()] + [(x,) for x in small[:8]]
-    pre_opts = [(), (("match", lit("c")),), (("hook", "g"),), (("append", "s", lit("cc")),)]
+    pre_opts = [(), (("match", lit("c")),), (("hook", "g"),), (("append", "s", ("re", q("c", "+"))),)]
     post_opts = [()] + [(x,) for x in small[:6]] + [(("hook", "h"),)]
     for blk in blocks_over(bodies, handlers, small):
         for pre in pre_opts:
